@@ -48,8 +48,33 @@ class DieOnPickle:
         return (str, ("never",))
 
 
+_ARMED = []
+
+
+def _arm():
+    """leave a thread behind in this worker that ends the process with a chosen exit status once the check drops a file
+    named after its pid (the only way an IDLE worker can end with a status of its own choosing, e.g. 0)"""
+    d = os.environ.get("C10_MINE_DIR")
+    if not d or _ARMED:
+        return
+    _ARMED.append(1)
+    import threading
+    me = os.path.join(d, f"die_{os.getpid()}")
+
+    def watch():
+        while True:
+            try:
+                with open(me) as f:
+                    code = int(f.read().strip() or 0)
+                os._exit(code)
+            except (OSError, ValueError):
+                time.sleep(0.01)
+    threading.Thread(target=watch, daemon=True).start()
+
+
 def task(i, tag, fault, dur):
     pid = os.getpid()
+    _arm()
     if fault is None:
         time.sleep(dur)
         return (tag, i, pid)
